@@ -301,6 +301,12 @@ class C11(Prop):
                 for c in cmps:
                     cases.append(self.gen_sort(rng, "so%d" % k, cnt, c))
                     k += 1
+        # (4) capacity arithmetic around the 1 GiB clamp of Grow (virtual memory only, a few cases)
+        G = 1 << 30
+        ops = [["gb", c, 8, q] for c, q in
+               [(64, G + rng.randrange(1, 1 << 20)), (rng.randrange(1 << 20, G), G - 8 + rng.randrange(0, 3)),
+                (G // 2 + rng.randrange(0, 4096), G // 2 + rng.randrange(0, 4096))]]
+        cases.append(Case("gc0", "growcap", [], ops, tags={"growcap"}))
         for j in range(n):
             if j % 2 == 0:
                 cases.append(self.gen_bytes(rng, "by%d" % j))
@@ -329,6 +335,8 @@ class C11(Prop):
         """SortSliceBetween's precondition, decided from the case alone: start/end of the first sort are slice
         boundaries of a buffer made of slices only (shrinking can produce cases that violate it; the code then
         dies in a failed assert, which says nothing about the property)"""
+        if case.comp == "growcap":
+            return True
         sh = Shadow(case.args[0], int(case.args[1]), int(case.args[2]), int(case.args[3]))
         lens = []
         for op in case.ops:
@@ -364,6 +372,18 @@ class C11(Prop):
 
     def oracle(self, case, il):
         fails = []
+        if case.comp == "growcap":
+            # spec: after Grow(n) there is room for n more bytes
+            if len(il) < len(case.ops):
+                return ["Grow at the 1 GiB clamp: implementation produced %d of %d result lines (panic?)" % (len(il), len(case.ops))]
+            for i, (op, l) in enumerate(zip(case.ops, il)):
+                fs = op.split()
+                if fs[0] == "gb":
+                    cur, off, n = int(fs[1]), int(fs[2]), int(fs[3])
+                    got = l.split()
+                    if len(got) != 2 or int(got[0]) < off + n or int(got[1]) < off + n:
+                        fails.append("op %d `%s` -> `%s`: after Grow(%d) at offset %d the capacity must be at least %d" % (i, op, l, n, off, off + n))
+            return fails
         if not self.well_formed(case):
             return []
         if len(il) < len(case.ops):
@@ -571,6 +591,9 @@ class C11(Prop):
             for t in ("bytes", "slices", "sort"):
                 if t in c.tags:
                     st["cases_" + t] += 1
+            if c.comp == "growcap":
+                st["growcap_ops"] = st.get("growcap_ops", 0) + len(c.ops)
+                continue
             st[c.args[0]] = st.get(c.args[0], 0) + 1
             st["auto_mmap"] += c.args[2] != "0"
             st["maxsize"] += c.args[3] != "0"
